@@ -411,6 +411,15 @@ func init() {
 
 // ---- identifiers drawn from crypto/rand: a fresh deterministic string per call ----
 func init() {
+	registerIntrinsic("github.com/google/uuid.New", func(i *interpreter, fr *frame, fn *ssa.Function, a []value) value {
+		i.ctx.uuidSeq++
+		out := make(array, 16)
+		for k := range out {
+			out[k] = uint8(0)
+		}
+		out[14], out[15] = uint8(i.ctx.uuidSeq>>8), uint8(i.ctx.uuidSeq)
+		return out
+	})
 	registerIntrinsic("k8s.io/apimachinery/pkg/util/uuid.NewUUID", func(i *interpreter, fr *frame, fn *ssa.Function, a []value) value {
 		i.ctx.uuidSeq++
 		return fmt.Sprintf("00000000-0000-4000-8000-%012d", i.ctx.uuidSeq)
